@@ -435,3 +435,11 @@ def connecting_flags(ctx):
                 "FlowControlComponent.create_pit_branch_entries"}
     ctx.decided("writers-of-the-flag-are-exactly-base-consumer-controller", "frame", set(writers) == expected,
                 witness="writers: %s" % {k: v for k, v in writers.items()})
+
+
+@unit("C04", "bounded/valve_internal_nodes", functions=["pandapipes.component_models.valve_component:Valve.get_internal_node_number"],
+      engine="bounded")
+def valve_internal_nodes_c04(ctx):
+    """the edges of pipe-attached valves (junction -- internal node) enter the connectivity search through this wiring"""
+    from contracts.C06 import valve_internal_nodes_bounded
+    valve_internal_nodes_bounded(ctx)
